@@ -88,6 +88,37 @@ CTX = {
     "ctx_import_free_dict_value": lambda n: "x=1\nd = {'k': " + _CH(n) + ", **{'j': " + _CH(n) + "}}\nprint(sorted(d))\n",
 }
 FAM.update(CTX)
+# the same chain shapes with other *spellings* of the leaves (names ending in digits, underscores, non-ASCII; other
+# literal kinds; mixed operators / index forms): redundant brackets that depend on how a leaf is spelled add one
+# nesting level per link. Each variant shares the recorded limits of its base family (same tree shape).
+_GA = ("class A:\n    def __getattr__(self, k):\n        return self\n    def __call__(self, *a, **k):\n        return self\n"
+       "    def __getitem__(self, k):\n        return self\na=A()\n")
+_cyc = lambda items, n: "".join(items[i % len(items)] for i in range(n))
+_sel = lambda items, n, sep: sep.join(items[i % len(items)] for i in range(n))
+VARIANTS = {
+    "attrchain_digit_names": ("attrchain", lambda n: _GA + "print(a" + "".join(".p%d" % i for i in range(n)) + " is a)\n"),
+    "attrchain_mixed_names": ("attrchain", lambda n: _GA + "print(a" + _cyc([".x", "._", ".p1", ".\u00e9", ".__d__", ".x_2", ".real9"], n) + " is a)\n"),
+    "attrchain_on_literals": ("attrchain", lambda n: "print((1)" + _cyc([".real", ".imag", ".numerator", ".denominator"], n) + ")\n"),
+    "callchain_with_args": ("callchain", lambda n: _GA + "print(a" + _cyc(["(1)", "(x=2)", "()", "(*[3])", "('s')", "(-1)", "(1.5)"], n) + " is a)\n"),
+    "subscriptchain_mixed_indices": ("subscriptchain", lambda n: _GA + "print(a" + _cyc(["[0]", "[-1]", "[1:2]", "['k']", "[1, 2]", "[...]", "[1.5]"], n) + " is a)\n"),
+    "mixed_trailers": ("attrchain", lambda n: _GA + "print(a" + _cyc([".p1", "(2)", "[3]", ".q", "()", "[-1]"], n) + " is a)\n"),
+    "binop_float_and_negative_leaves": ("binop", lambda n: "print(" + _sel(["1.5", "-1", "2e3", "0x1f", "1j", "(-2)", "True", "1_000"], n, "+") + ")\n"),
+    "binop_names_ending_in_digits": ("binop", lambda n: "x1=1\ny_2=2\nprint(" + _sel(["x1", "y_2"], n, "+") + ")\n"),
+    "binop_same_precedence_mixed": ("binop", lambda n: "print(1" + _cyc(["+2", "-3", "+4.5", "-6"], n - 1) + ")\n"),
+    "binop_mul_level_mixed": ("binop", lambda n: "print(1" + _cyc(["*2", "//3", "%7", "*5"], n - 1) + ")\n"),
+    "binop_bitwise_mixed": ("binop", lambda n: "print(1" + _cyc(["|2", "|4", "|8"], n - 1) + ", 1" + _cyc(["^2", "^4"], n - 1) + ")\n"),
+    "binop_string_leaves": ("binop", lambda n: "print(len(" + _sel(["'a'", '"b"', "'\\n'", "f'{1}'", "'\u00e9'"], n, "+") + "))\n"),
+    "boolchain_or_and_mixed": ("boolchain", lambda n: "print(" + " or ".join("0 and 1" for _ in range(max(1, n // 2))) + ")\n"),
+    "unary_chain_mixed": ("unary_chain", lambda n: "print(" + _cyc(["-", "+", "~"], n) + "1)\n"),
+    "not_chain": ("unary_chain", lambda n: "print(" + "not " * n + "1)\n"),
+    "comparechain_mixed_ops": ("comparechain", lambda n: "print(0" + _cyc([" < 1", " <= 1", " != 2", " == 2", " >= 1", " > 0"], n) + ")\n"),
+    "strconcat_mixed_quotes": ("strconcat", lambda n: "s = " + _sel(["'a'", '"b"', "'''c'''", "'\\''"], n, " ") + "\nprint(len(s))\n"),
+    "elif_names_ending_in_digits": ("elif", lambda n: "x1=%d\nif x1==0:\n    print(0)\n" % (n - 1) + "".join("elif x1==%d:\n    y%d = %d\n    print(y%d)\n" % (i, i, i, i) for i in range(1, n))),
+}
+LIMITS_AS = {}
+for _k, (_base, _f) in VARIANTS.items():
+    FAM[_k] = _f
+    LIMITS_AS[_k] = _base
 CLEAN = ("oneliner", "list", "if_expr")
 QUICK_CFGS = [envs.DEFAULT_CFG, CLEAN, ("oneliner", "chain_call", "if_expr"), ("ast.unparse", "list", "if_expr"),
               ("oneliner", "list", "short_circuit"), ("ast.unparse", "chain_call", "short_circuit")]
@@ -119,7 +150,7 @@ def known_limit(fam, cfg, n, r, host):
     kf = findings.by_id("KF-size-limits")
     if not kf:
         return None
-    e = kf.get("limits", {}).get(fam + "|" + ",".join(cfg), {}).get(host)
+    e = kf.get("limits", {}).get(LIMITS_AS.get(fam, fam) + "|" + ",".join(cfg), {}).get(host)
     if not e:
         return None
     loc = r.get("where") or {}
